@@ -184,6 +184,10 @@ impl Family for Syntax {
                 }
             }
         }
+        // C03: every definition, field, enumerator, operation (and parameter) can be retrieved by its fully scoped name
+        if clean && self.mode == "find" {
+            span_failure = find_all(&state);
+        }
         let visited: Vec<Value> = if clean && self.mode == "visit" {
             state
                 .files
@@ -206,7 +210,7 @@ impl Family for Syntax {
         let expect = normalise(&case["expect"]);
         let fail = if !errors.is_empty() {
             Some(mismatch("a well-formed model program was rejected", json!([]), json!(errors)))
-        } else if self.mode == "spans" {
+        } else if self.mode == "spans" || self.mode == "find" {
             span_failure
         } else if self.mode == "visit" {
             first_diff(&case["visit"], &Value::Array(visited), "visit").map(|d| json!({"kind": "mismatch", "what": "visitor callbacks differ from the pre-order walk of the file", "at": d}))
@@ -216,4 +220,66 @@ impl Family for Syntax {
         let ntok: usize = files.iter().map(|f| f["out"].as_array().map(|a| a.len()).unwrap_or(0)).sum();
         Outcome { fail, nontrivial: ntok > 12, key, rendered }
     }
+}
+
+
+/// Looks every entity of the compiled files up by its scoped identifier; returns the first failure.
+fn find_all(state: &slicec::compilation_state::CompilationState) -> Option<Value> {
+    use slicec::grammar::*;
+    let ast = &state.ast;
+    macro_rules! check {
+        ($ty:ty, $e:expr) => {{
+            let id = $e.parser_scoped_identifier();
+            match ast.find_element::<$ty>(&id) {
+                Ok(found) => {
+                    if found.span() != $e.span() || found.identifier() != $e.identifier() {
+                        return Some(json!({"kind": "mismatch", "what": "find_element returned another element", "id": id}));
+                    }
+                }
+                Err(_) => return Some(json!({"kind": "mismatch", "what": "an entity cannot be retrieved by its scoped name", "id": id, "type": stringify!($ty)})),
+            }
+            if ast.find_element::<$ty>(&format!("{id}x")).is_ok() || ast.find_element::<$ty>(&format!("Zz::{id}")).is_ok() {
+                return Some(json!({"kind": "mismatch", "what": "find_element found something for a name nothing declares", "id": id}));
+            }
+        }};
+    }
+    for f in &state.files {
+        for d in &f.contents {
+            match d {
+                Definition::Struct(s) => {
+                    let s = s.borrow();
+                    check!(Struct, s);
+                    for x in s.fields() {
+                        check!(Field, x);
+                    }
+                }
+                Definition::Enum(e) => {
+                    let e = e.borrow();
+                    check!(Enum, e);
+                    for n in e.enumerators() {
+                        check!(Enumerator, n);
+                        for x in n.fields() {
+                            check!(Field, x);
+                        }
+                    }
+                }
+                Definition::Interface(i) => {
+                    let i = i.borrow();
+                    check!(Interface, i);
+                    for o in i.operations() {
+                        check!(Operation, o);
+                    }
+                }
+                Definition::CustomType(c) => {
+                    let c = c.borrow();
+                    check!(CustomType, c);
+                }
+                Definition::TypeAlias(a) => {
+                    let a = a.borrow();
+                    check!(TypeAlias, a);
+                }
+            }
+        }
+    }
+    None
 }
